@@ -5,6 +5,7 @@ import (
 	"fmt"
 	"sync"
 
+	"github.com/plgd-dev/go-coap/v3/pkg/verifhook"
 	"go.uber.org/atomic"
 )
 
@@ -40,6 +41,7 @@ func (p *Pool) AcquireMessage(ctx context.Context) *Message {
 	}
 	p.currentMessagesInPool.Dec()
 	r.ctx = ctx
+	verifhook.PoolAcquire(r, true)
 	return r
 }
 
@@ -48,6 +50,7 @@ func (p *Pool) AcquireMessage(ctx context.Context) *Message {
 // It is forbidden accessing req and/or its' members after returning
 // it to Message pool.
 func (p *Pool) ReleaseMessage(req *Message) {
+	verifhook.PoolRelease(req)
 	for {
 		v := p.currentMessagesInPool.Load()
 		if v >= int64(p.maxNumMessages) {
@@ -60,5 +63,6 @@ func (p *Pool) ReleaseMessage(req *Message) {
 	}
 	req.Reset()
 	req.ctx = nil
+	verifhook.PoolPut(req)
 	p.messagePool.Put(req)
 }
